@@ -443,6 +443,28 @@ def extras_are_crash_leftovers(case, out):
     return some_extra
 
 
+def best_overwritten_by_last(case, out):
+    """wherever the best epoch does not load with its own parameters, it is older than the last
+    recorded epoch, whose parameters are what the shared file holds"""
+    _, _, em, eo = FMTS[case["fmt"]]
+    hit = False
+    for o in out["obs"]:
+        if not o["best"] or not o["last"]:
+            continue
+        tag = {r[0]: r[3] for r in o["hist"]}
+        lb, ll = o["loads"][o["best"] - 1], o["loads"][o["last"] - 1]
+        if lb[1] == tag[o["best"]] and lb[2] == tag[o["best"]]:
+            continue
+        hit = True
+        if o["best"] >= o["last"]:
+            return False
+        if (not em and lb[1] != ll[1]) or (not eo and lb[2] != ll[2]):
+            return False
+        if (em and lb[1] != tag[o["best"]]) or (eo and lb[2] != tag[o["best"]]):
+            return False
+    return hit
+
+
 LOAD_PARTS = {"load_last", "load_best", "load_all"}
 
 
@@ -471,6 +493,8 @@ def signature_fn(entry, rec):
     if sig.get("crash_after_append_before_last_replace") and not any(crash_windows(out)):
         return False
     if sig.get("extras_existed_at_an_earlier_crash") and not extras_are_crash_leftovers(case, out):
+        return False
+    if sig.get("best_is_not_last_wherever_best_fails") and not best_overwritten_by_last(case, out):
         return False
     return True
 
@@ -677,6 +701,9 @@ def run(chk, cases=None):
                         "parameter values are one integer per update call, written to the model weight, the optimizer param group and the user entry 'tag'",
                         "the iteration order of the Python set clean_up is read back from the trace and handed to the model as an oracle",
                         "stopping decisions (early stopping, num_epochs) are C15's: the model gets the metric list cut where the uninterrupted implementation stopped"]
+    import time
+    t0 = time.time()
+    timing = chk.extra.setdefault("timing_s", {})
     explicit = cases is not None
     if cases is None:
         cases = gen_cases(chk)
@@ -686,7 +713,11 @@ def run(chk, cases=None):
             cases.append(c)
     terms, sterms = [], []
     streams = [c.pop("stream", "random") for c in cases]
+    timing["generate"] = round(time.time() - t0, 1)
+    t0 = time.time()
     outs = run_impl_many(cases, chk.workdir)
+    timing["implementation"] = round(time.time() - t0, 1)
+    t0 = time.time()
     for c, stream, out in zip(cases, streams, outs):
         terms.append(model_term(c, out))
         sterms.append(spec_term(c, out))
@@ -705,6 +736,7 @@ def run(chk, cases=None):
                     chk.count("crash-after=" + (ops[-1][0] if ops else "nothing"))
     res = coq_eval_bools(chk.workdir, IMPORTS, terms)
     sres = coq_eval_bools(chk.workdir, IMPORTS, sterms, tag="spec")
+    timing["coq_model_and_spec"] = round(time.time() - t0, 1)
     bad = [i for i, ok in enumerate(res) if not ok]
     sbad = [i for i, ok in enumerate(sres) if not ok or outs[i].get("notes") or "error" in outs[i]]
     chk.extra["model_disagreements"] = len(bad)
@@ -712,6 +744,10 @@ def run(chk, cases=None):
     reported = 0
     concrete = False
     # (1) every implementation output the spec rejects: known finding or violation
+    todo = [i for i in sbad if "error" not in outs[i] and not outs[i].get("notes")]
+    pres = coq_eval_bools(chk.workdir, IMPORTS, [spec_term(cases[i], outs[i], j) for i in todo for j in range(len(PARTS))],
+                          shard=700, tag="parts")
+    parts_of = {i: [PARTS[j] for j in range(len(PARTS)) if not pres[n * len(PARTS) + j]] for n, i in enumerate(todo)}
     for i in sbad:
         case, out = cases[i], outs[i]
         if out.get("notes") or "error" in out:
@@ -721,7 +757,7 @@ def run(chk, cases=None):
             concrete = True
             reported += 1
             continue
-        parts = failing_parts(chk, case, out)
+        parts = parts_of[i]
         for g in part_groups(parts):
             rec = make_record(chk, case, out, res[i], g, with_model=False)
             e = chk.known_match(signature_fn, rec)
